@@ -667,11 +667,12 @@ impl Callbacks for Cb {
 							let fty = tcx.type_of(f.did).instantiate_identity().skip_norm_wip();
 							let _ = write!(
 								out,
-								"{{\"name\":{},\"ty\":{},\"pub\":{},\"attrs\":{}",
+								"{{\"name\":{},\"ty\":{},\"pub\":{},\"attrs\":{},\"sp\":{}",
 								esc(f.name.as_str()),
 								esc(&cx.ty(fty)),
 								f.vis.is_public(),
-								esc(&attrs_text(tcx, f.did))
+								esc(&attrs_text(tcx, f.did)),
+								esc(&cx.span(tcx.def_span(f.did)))
 							);
 							// ADTs mentioned in the field type
 							out.push_str(",\"adts\":[");
